@@ -16,21 +16,15 @@ func init() {
 	register(&propCheck{
 		id:    "C05",
 		title: "eexec-encrypted program sections are transparent",
-		explanation: "Decides the table/shape clauses of C05: the cipher constants equal the Adobe values (55665, 52845, 22719, four lead bytes) in both packages; the decryption step is plain = cipher ^ (r>>8), r = (cipher + r)*c1 + c2 with the *cipher* byte fed back (symbolic term comparison, insensitive to operand order and temporaries); " +
+		explanation: "Decides the table/shape clauses of C05: the cipher constants equal the Adobe values (55665, 52845, 22719, four lead bytes) in both packages; the decryption step is plain = cipher ^ (r>>8), r = (cipher + r)*c1 + c2 with the *cipher* byte fed back (the function that advances the 16-bit state is evaluated on the SSA form over symbols r and c; the result and the stored state are compared with the specification as normal forms over Z/2^16 or, where the forms differ, for all 2^24 values — indifferent to extraction into a pure function, temporaries, operand order, expansion); " +
 			"the white space skipped before the ciphertext is exactly {space, tab, CR, LF}; the section is taken as hexadecimal iff all of the first four bytes are hex digits; exactly four decrypted bytes are discarded; the two hex de-armouring classifiers (hex strings, hex eexec) assign every byte value the same class and digit value as the specification (skip ≤ 32 at any position, [0-9A-Fa-f], error otherwise); " +
-			"the eexec operator pushes systemdict, refuses nesting, treats exactly io.EOF from closefile as the end of the section, and on every path to normal completion ends decryption and restores the dictionary stack to the length captured before the push; closefile returns io.EOF; readstring consumes exactly one delimiter byte and then reads raw bytes from the scanner on top of the scanner stack. " +
+			"the eexec operator, evaluated as a decision table (start of decryption succeeds/fails × the section ends with nil, io.EOF, another error, every error value the operator names × the section leaves the dictionary stack higher, equal, lower): it runs the section on the scanner on top of the scanner stack with systemdict pushed, treats exactly nil and io.EOF as the end of the section, and on every normal completion has ended decryption and cut the dictionary stack back to what it was before the push; closefile returns io.EOF; readstring consumes exactly one delimiter byte and then reads raw bytes from the scanner on top of the scanner stack. " +
 			"It does NOT decide equality of effects with the plaintext run nor the peek/replay behaviour across buffer refills.",
-		trusted:     []string{"go/types constant evaluation", "term canonicalisation in /verif/psa/symterm.go", "byte-domain evaluation of comparison-only predicates (asteval.go)"},
+		trusted:     []string{"go/types constant evaluation", "decision-table evaluation on go/ssa (ssaeval.go)", "normal form of integer terms over Z/2^w and exhaustive term comparison (ext_b.go)"},
 		assumptions: nil,
 		run:         runC05,
 	})
 }
-
-const (
-	termOUT  = "xor(in,u8(shr(r,8)))"
-	termRDEC = "add(22719,mul(52845,add(r,u16(in))))"
-	termRENC = "add(22719,mul(52845,add(r,u16(" + termOUT + "))))"
-)
 
 var hexOracle = func() (cls [256]string) {
 	for b := 0; b < 256; b++ {
@@ -54,21 +48,6 @@ func isHexDigit(b int) bool {
 	return b >= '0' && b <= '9' || b >= 'a' && b <= 'f' || b >= 'A' && b <= 'F'
 }
 
-// findStmt returns the first node of the wanted kind in body satisfying pred.
-func findNode[T ast.Node](body ast.Node, pred func(T) bool) (res T, ok bool) {
-	ast.Inspect(body, func(n ast.Node) bool {
-		if ok {
-			return false
-		}
-		if t, isT := n.(T); isT && pred(t) {
-			res, ok = t, true
-			return false
-		}
-		return true
-	})
-	return
-}
-
 func (c *Ctx) cipherConstants() {
 	type kc struct {
 		pkg, name string
@@ -81,66 +60,10 @@ func (c *Ctx) cipherConstants() {
 	}
 }
 
-// charstringKey checks that fn declares its cipher state with 4330.
-func (c *Ctx) charstringKey(fd *ast.FuncDecl, info *types.Info, fname string) (stateVar types.Object) {
-	found := false
-	ast.Inspect(fd.Body, func(n ast.Node) bool {
-		vs, ok := n.(*ast.ValueSpec)
-		if !ok || len(vs.Names) != 1 || len(vs.Values) != 1 {
-			return true
-		}
-		if b, ok := info.TypeOf(vs.Names[0]).Underlying().(*types.Basic); !ok || b.Kind() != types.Uint16 {
-			return true
-		}
-		if v, ok := constIntOf(info, vs.Values[0]); ok && v == 4330 {
-			found = true
-			stateVar = info.Defs[vs.Names[0]]
-		}
-		return true
-	})
-	c.check(found, "CIPHER-CONST", fname, "charstring key = 4330", fd.Pos(), "uint16 state initialised with 4330", "the charstring cipher state is not initialised with 4330")
-	return
-}
-
 func runC05(c *Ctx) {
 	c.cipherConstants()
-	ps := c.pkg("postscript")
-	info := ps.TypesInfo
-
-	// ---- decryption step of the scanner
-	{
-		fd := c.funcDecl("postscript", "scanner", "eexecDecode")
-		fname := "postscript.(*scanner).eexecDecode"
-		env := &symEnv{info: info, vars: map[string]string{}}
-		env.bind(fd.Type.Params.List[0].Names[0], "in")
-		// state: the uint16 field of the receiver
-		recv := fd.Recv.List[0].Names[0]
-		var stateSel *ast.SelectorExpr
-		ast.Inspect(fd.Body, func(n ast.Node) bool {
-			if se, ok := n.(*ast.SelectorExpr); ok {
-				if id, ok := se.X.(*ast.Ident); ok && info.ObjectOf(id) == info.ObjectOf(recv) {
-					if b, ok := info.TypeOf(se).Underlying().(*types.Basic); ok && b.Kind() == types.Uint16 {
-						stateSel = se
-					}
-				}
-			}
-			return true
-		})
-		if stateSel == nil {
-			c.fail("CIPHER-SHAPE", fname, "16-bit cipher state", fd.Pos(), "eexecDecode does not use a uint16 state field of the scanner")
-		} else {
-			env.bind(stateSel, "r")
-			env.exec(fd.Body.List)
-			out := "?"
-			if ret, ok := findNode(fd.Body, func(r *ast.ReturnStmt) bool { return len(r.Results) == 1 }); ok {
-				// the returned expression is evaluated in the state *at the return*; if it is a variable it was bound earlier
-				out = env.term(ret.Results[0])
-			}
-			k, _ := env.key(stateSel)
-			c.check(out == termOUT, "CIPHER-SHAPE", fname, "plain = cipher ^ (r >> 8)", fd.Pos(), out, "the decrypted byte is computed as "+out+", expected "+termOUT)
-			c.check(env.vars[k] == termRDEC, "CIPHER-SHAPE", fname, "r = (cipher + r)*c1 + c2 (cipher byte fed back)", fd.Pos(), env.vars[k], "the cipher state update is "+env.vars[k]+", expected "+termRDEC+" (the ciphertext byte, not the plaintext, is fed back)")
-		}
-	}
+	// ---- decryption step of the scanner (ext_b.go): decided on the evaluator for symbolic state and byte
+	c.cipherDecryptStepB()
 
 	// ---- BeginEexec: white space, hex detection, lead bytes
 	c.beginEexecTable()
@@ -313,110 +236,9 @@ func (c *Ctx) eexecOperator() {
 	reg := c.registry()
 	f := reg.op("systemdict", "eexec")
 	fname := c.fname(f)
-	// push of SystemDict
-	var push *ssa.Store
-	var savedLen ssa.Value
-	eachInstr(f, func(ins ssa.Instruction) {
-		st, ok := ins.(*ssa.Store)
-		if !ok || !isFieldAddr(st.Addr, ia.T, "DictStack") {
-			return
-		}
-		if call, ok := st.Val.(*ssa.Call); ok {
-			if b, ok := call.Common().Value.(*ssa.Builtin); ok && b.Name() == "append" {
-				if sl, ok := call.Common().Args[1].(*ssa.Slice); ok {
-					if al, ok := sl.X.(*ssa.Alloc); ok {
-						for _, r := range *al.Referrers() {
-							if ix, ok := r.(*ssa.IndexAddr); ok {
-								for _, rr := range *ix.Referrers() {
-									if s2, ok := rr.(*ssa.Store); ok && isFieldLoad(s2.Val, ia.T, "SystemDict") {
-										push = st
-									}
-								}
-							}
-						}
-					}
-				}
-			}
-		}
-	})
-	c.check(push != nil, "EEXEC-OP", fname, "systemdict pushed on the dictionary stack", f.Pos(), "DictStack = append(DictStack, SystemDict)", "eexec does not push the system dictionary")
-	if push == nil {
-		return
-	}
-	// saved length: a len(DictStack) computed before the push
-	eachInstr(f, func(ins ssa.Instruction) {
-		if call, ok := ins.(*ssa.Call); ok {
-			if b, ok := call.Common().Value.(*ssa.Builtin); ok && b.Name() == "len" && isFieldLoad(call.Common().Args[0], ia.T, "DictStack") && dominatesInstr(call, push) {
-				savedLen = call
-			}
-		}
-	})
-	// decryption is switched off by storing 0 into the scanner's mode field, here or in a helper
-	scT := c.typeObj("postscript", "scanner")
-	modeOff := func(ins ssa.Instruction) bool {
-		st, ok := ins.(*ssa.Store)
-		if !ok || !isFieldAddr(st.Addr, scT, c.fld("scanner.eexec")) {
-			return false
-		}
-		k, isC := constInt(st.Val)
-		return isC && k == 0
-	}
-	var endSites []ssa.Instruction
-	eachInstr(f, func(ins ssa.Instruction) {
-		if modeOff(ins) {
-			endSites = append(endSites, ins)
-		}
-		if call, ok := ins.(*ssa.Call); ok {
-			if g := call.Common().StaticCallee(); g != nil && c.inModule(g) && len(g.Blocks) > 0 && g != ia.execScanner {
-				has := false
-				eachInstr(g, func(i2 ssa.Instruction) {
-					if modeOff(i2) {
-						has = true
-					}
-				})
-				if has {
-					endSites = append(endSites, ins)
-				}
-			}
-		}
-	})
-	run := staticCalls(f, ia.execScanner)
-	if len(run) != 1 {
-		c.fail("EEXEC-OP", fname, "encrypted section executed", f.Pos(), "expected one call of executeScanner in eexec")
-		return
-	}
-	okAll := true
-	why := ""
-	nret := 0
-	for _, r := range returns(f) {
-		if !isNilConst(r.Results[0]) || !dominatesInstr(run[0], r) {
-			continue
-		}
-		nret++
-		ended := false
-		for _, site := range endSites {
-			if dominatesInstr(site, r) && dominatesInstr(run[0], site) {
-				ended = true
-			}
-		}
-		restored := false
-		eachInstr(f, func(ins ssa.Instruction) {
-			st, ok := ins.(*ssa.Store)
-			if !ok || st == push || !isFieldAddr(st.Addr, ia.T, "DictStack") || !dominatesInstr(st, r) || !dominatesInstr(run[0], st) {
-				return
-			}
-			if sl, ok := st.Val.(*ssa.Slice); ok && sl.Low == nil && sl.High != nil && savedLen != nil && origin(sl.High) == savedLen && isFieldLoad(sl.X, ia.T, "DictStack") {
-				restored = true
-			}
-		})
-		if !ended {
-			okAll, why = false, "decryption is not switched off (EndEexec) before eexec completes normally"
-		}
-		if !restored {
-			okAll, why = false, "the dictionary stack is not cut back to the length captured before systemdict was pushed (DictStack[:k]); a section that leaves `begin`s open or executes an extra `end` changes the stack for the clear text that follows"
-		}
-	}
-	c.check(okAll && nret > 0, "EEXEC-OP", fname, "on normal completion: decryption ended, dictionary stack restored to the captured length", run[0].Pos(), "EndEexec and DictStack = DictStack[:k] dominate return nil", why)
+	// the operator is decided as a table on the evaluator (ext_b.go): every way the section can end
+	// × what it left on the dictionary stack; helpers for the push / clean-up are evaluated in place
+	c.eexecOperatorTableB("EEXEC-OP", false)
 	// closefile returns io.EOF
 	cf := reg.op("systemdict", "closefile")
 	okEOF := false
@@ -426,22 +248,7 @@ func (c *Ctx) eexecOperator() {
 		}
 	}
 	c.check(okEOF, "EEXEC-OP", c.fname(cf), "closefile signals the end of the section with io.EOF", cf.Pos(), "returns io.EOF", "closefile no longer returns io.EOF, which eexec maps to normal completion")
-	// eexec maps exactly io.EOF to completion: the error of executeScanner is compared with io.EOF and nil only
-	if e, ok := run[0].(*ssa.Call); ok {
-		okCmp := true
-		for _, r := range *e.Referrers() {
-			if bo, ok := r.(*ssa.BinOp); ok && (bo.Op == token.NEQ || bo.Op == token.EQL) {
-				other := bo.Y
-				if bo.Y == ssa.Value(e) {
-					other = bo.X
-				}
-				if !isNilConst(other) && !(isEOFGlobal(other) && globalLoad(other).Name() == "EOF") {
-					okCmp = false
-				}
-			}
-		}
-		c.check(okCmp, "EEXEC-OP", fname, "only io.EOF is treated as the end of the section", e.Pos(), "compared with nil and io.EOF only", "eexec treats an error other than io.EOF as normal completion")
-	}
+	_ = fname
 	c.scannerOperators(ia, reg, "EEXEC-OP", "eexec", "readstring")
 }
 
@@ -488,6 +295,7 @@ func (c *Ctx) beginEexecTable() {
 	fname := "postscript.(*scanner).BeginEexec"
 	scT := c.typeObj("postscript", "scanner")
 	modeF := c.fld("scanner.eexec")
+	keyF := c.fld("scanner.r")
 	eexecFn := c.registry().op("systemdict", "eexec")
 	// the number of lead bytes the operator asks for
 	ivLen := int64(-1)
@@ -501,6 +309,7 @@ func (c *Ctx) beginEexecTable() {
 		mode     int64 // value stored into the mode field
 		peeked   int64 // number of bytes asked of the look-ahead
 		consumed int   // byte reads after the decision
+		key      sv    // the cipher state when the first byte is read after the decision
 		why      string
 	}
 	run := func(first byte, window string) outcome {
@@ -531,6 +340,9 @@ func (c *Ctx) beginEexecTable() {
 			switch {
 			case res.Len() == 2 && par.Len() == 0: // a single byte: look-ahead before the decision, reads after it
 				if decided {
+					if o.consumed == 0 {
+						o.key = ev.mem["s."+keyF]
+					}
 					o.consumed++
 					return sv{k: svTuple, tup: []sv{intV(0), {k: svNil}}}, true
 				}
@@ -613,5 +425,6 @@ func (c *Ctx) beginEexecTable() {
 		fmt.Sprintf("the set of bytes that make the section binary is {%s}, expected the complement of the hexadecimal digits %s", setString(nonHex), bad))
 	o := run('X', "0000")
 	c.check(ivLen == 4 && o.peeked == 4, "EEXEC-HEXDETECT", fname, "the first four bytes are inspected", fn.Pos(), fmt.Sprintf("look-ahead of %d bytes", o.peeked), fmt.Sprintf("hex/binary detection looks at %d bytes (the operator passes %d), the specification says 4", o.peeked, ivLen))
+	c.check(o.key.k == svInt && o.key.i == 55665, "EEXEC-LEADBYTES", fname, "the cipher state is (re)set to 55665 before the first byte is decrypted", fn.Pos(), "state at the first decrypted read: "+o.key.String(), "when the first lead byte is decrypted the cipher state is "+o.key.String()+", the specification says 55665 (a second eexec section on the same input would continue with a stale state)")
 	c.check(o.consumed == 4, "EEXEC-LEADBYTES", fname, "exactly four decrypted lead bytes are discarded", fn.Pos(), fmt.Sprintf("%d reads after the decision", o.consumed), fmt.Sprintf("BeginEexec discards %d decrypted bytes, the specification says 4", o.consumed))
 }
